@@ -819,8 +819,9 @@ class GraphBuilder:
                 "instead."
             )
 
-        # avoid name clashes
-        self._set_missing_names()
+        # avoid name clashes: the unnamed inputs of the variable need names that are
+        # unique in this graph builder, not only in the local model built below
+        self.copy().add(var)._set_missing_names()
 
         if var.value_node in self.nodes:
             raise RuntimeError(
